@@ -323,6 +323,39 @@ def ftSub (d : Int) (bal : Nat) (n : Int) : Option (Bool × Nat × Res) :=
       some (true, r.natAbs, formatRocket r d)
   | _ => none
 
+/-! ### `service.ChangeAssets` / `transferBalance` (src/service/game.go) with one target
+
+The native balance is the bound token `common.BLANCE_NAME` with 18 decimals, so
+`SetBalance/GetBalance/AddBalance/SubBalance` are `ftSet/ftGet/ftAdd/ftSub` at `d = 18`.
+Result: (success, source balance afterwards, target balance afterwards, response);
+`none` = a nil `*big.Int` would be dereferenced. -/
+
+def gameFailMsg : Str := "Transfer Balance Failed".toList
+
+def gameTransfer (srcBal : Int) (value : Str) : Option (Bool × Res × Res × Str) :=
+  match ftSet 18 srcBal with
+  | none => none
+  | some sb =>
+    let failed : Option (Bool × Res × Res × Str) := some (false, ftGet 18 sb, ftGet 18 0, gameFailMsg)
+    match StrToBigInt value with
+    | .panic => none
+    | .err => failed
+    | .ok amt =>
+      if amt < 0 then failed
+      else
+        match ftGet 18 sb with
+        | .ok cur =>
+          if cur < amt then failed
+          else
+            match ftAdd 18 0 amt, ftSub 18 sb amt with
+            | some tb, some (_, sb', left) =>
+              let leftStr : Str := match left with
+                | .ok v => BigIntToStr v
+                | _ => ['0']
+              some (true, ftGet 18 sb', ftGet 18 tb, "{\"balance\":\"".toList ++ leftStr ++ "\"}".toList)
+            | _, _ => none
+        | _ => none
+
 /-! ### the other helpers of data_convert.go that amounts pass through -/
 
 /-- `Uint64ToBigInt(n)`: `n · baseNumber`. -/
